@@ -284,9 +284,19 @@ IterNext(j) ==
   /\ UNCHANGED root
   /\ Record(Call("next", j, 0), TRUE)
 
+(* AvlIterator.Clone(): the struct {tree, node, value} is copied *)
+IterClone(j, j2) ==
+  /\ j # j2 /\ it[j].live
+  /\ mit' = [mit EXCEPT ![j2] = mit[j]]
+  /\ h' = GC(h, root, mit')
+  /\ SetIterClone(j, j2)
+  /\ UNCHANGED root
+  /\ Record(Call("iclone", j, j2), TRUE)
+
 Next == \/ \E k \in Keys : Insert(k) \/ Delete(k)
         \/ \E j \in Iters : NewIter(j) \/ IterNext(j)
         \/ \E j \in Iters, k \in Keys : IterFrom(j, k)
+        \/ \E j, j2 \in Iters : IterClone(j, j2)
 
 Spec == Init /\ [][Next]_mvars
 =============================================================================
